@@ -31,7 +31,7 @@ def main():
             if op == "render":
                 b = pl.build(req["samples"], req["opts"], extra_models=[tuple(x) for x in req.get("extra_models", [])])
                 opts = pl.norm_opts(req["opts"])
-                nested = bool(opts["nested"] and pl.is_tree(b.reg))
+                nested = bool(opts["nested"] and (req.get("force_nested") or pl.is_tree(b.reg)))
                 stats = dict(
                     merged=any(len(g) >= 2 for _, g in b.replaces),
                     multi_parent=any(len({p.parent.index for p in m.pointers if p.parent is not None}) >= 2 for m in b.reg.models),
